@@ -800,9 +800,19 @@ def _shadow_invocations(ctx, sim_time, workload, worker_pools, policy, rng):
                     if noff == 0 or noff > (4 if kind == "z3" else 8):
                         ctx.count("shadow_skipped_large" if noff else "shadow_skipped_empty")
                         continue
-                ret = pol.schedule(sim_time, workload, worker_pools)
+                slow = ctx.__dict__.setdefault("_shadow_slow", {})
+                if slow.get(name, 0) >= 2:
+                    ctx.count("shadow_skipped_slow")
+                    continue
+                budget = common.call_budget(8)
+                with budget:
+                    ret = pol.schedule(sim_time, workload, worker_pools)
             except BaseException as e:  # noqa
-                if isinstance(e, (KeyboardInterrupt, Watchdog, WallClock)):
+                if isinstance(e, common.SolverAborted) and budget.fired:
+                    ctx.count("shadow_calls_cut_short")  # one slow solve (wall-clock: tooling, never a verdict)
+                    slow[name] = slow.get(name, 0) + 1
+                    continue
+                if isinstance(e, (KeyboardInterrupt, Watchdog, WallClock, common.SolverAborted)):
                     raise
                 if (type(e).__name__ == "GurobiError" and "size-limited" in str(e)) or type(e).__name__ == "DOcplexLimitsExceeded":
                     ctx.count("shadow_tooling_limit")
@@ -964,7 +974,10 @@ def run_direct(world, wall_s=30, shadow=False, decision_hooks=()):
     t0 = _time.time()
 
     def alarm(signum, frame):
+        common.alarm_fired()  # shadow-invoked planners: a raise inside a solver callback is swallowed (see common.py)
         raise WallClock("wall-clock alarm")
+    if shadow:
+        common.install_solver_guard()
     old = signal.signal(signal.SIGALRM, alarm)
     signal.alarm(wall_s)
     _CTX = ctx
@@ -984,7 +997,7 @@ def run_direct(world, wall_s=30, shadow=False, decision_hooks=()):
     except Watchdog as e:
         status, exc = "watchdog", str(e)
         ctx.violate("C05", "livelock", str(e))
-    except WallClock:
+    except (WallClock, common.SolverAborted):
         status = "wallclock"
     except Exception as e:  # the simulator refusing a legal answer of the policy, or an internal error
         import traceback
@@ -1007,6 +1020,7 @@ def run_direct(world, wall_s=30, shadow=False, decision_hooks=()):
     finally:
         signal.alarm(0)
         signal.signal(signal.SIGALRM, old)
+        common.alarm_cleared()
         _CTX = None
     ctx.status, ctx.exception, ctx.wall = status, exc, _time.time() - t0
     if status == "no_end_event":
